@@ -2,7 +2,7 @@
 PROPERTY_GROUPS = {
     'C01': ['rep', 'dt'],
     'C02': ['rep', 'mp4'],
-    'C03': ['mp4'],
+    'C03': ['mp4', 'rep'],
     'C04': ['mp4'],
     'C06': ['rep', 'timing', 'dt', 'load', 'httprange'],
     'C08': ['timing'],
